@@ -1,8 +1,12 @@
 (** Property C03 - generated message types encode and decode frames exactly as the DBC specifies.
     Theorems are about the descriptor interpreter Gen/Message.v (frame_of = generated Frame(),
-    unmarshal = generated UnmarshalFrame(), dispatch = Messages().UnmarshalFrame). *)
+    unmarshal = generated UnmarshalFrame(), dispatch = Messages().UnmarshalFrame); the interpreter
+    is tied to the generated, compiled Go code on every run (checks/gen.py).
+    [wf_message m]: every signal's range fits the 64 payload bits (float signals are 32 bits wide)
+    and two signals share payload bits only if both are multiplexed with different selectors. *)
 From Coq Require Import ZArith List Bool.
-From CanVerif Require Import Can.Data Can.DataSpec Descriptor.Types Gen.Message Gen.MessageProofs.
+From CanVerif Require Import Can.Data Can.DataSpec Can.DataProofs Descriptor.Types
+  Gen.Message Gen.MessageProofs Gen.History Gen.Layout Gen.LayoutProofs Gen.RoundTrip Gen.HistoryProofs.
 Import ListNotations.
 Open Scope Z_scope.
 
@@ -13,21 +17,73 @@ Theorem C03_frame_header : forall m st,
 Proof. exact frame_of_header. Qed.
 Print Assumptions C03_frame_header.
 
-(** a frame with another ID, another length, the remote flag or the other ID format is rejected
-    (the state is returned unchanged: the result carries no new state) *)
+(** ENCODE. Frame() is exactly the history of writes [active_writes m st]: one write per
+    non-multiplexed signal and per multiplexed signal whose selector equals the multiplexer field,
+    each at the signal's layout (start, length, byte order; 1-bit signals: the single addressed bit)
+    carrying the field's wire value, into a zero payload ... *)
+Theorem C03_encode_is_write_history : forall m st,
+  Forall wf_signal (msg_signals m) -> inv (msg_signals m) st = true ->
+  fr_data (frame_of m st) = fold_left apply_write (active_writes m st) zero_data /\
+  Forall write_ok (active_writes m st).
+Proof. exact frame_data_fold. Qed.
+Print Assumptions C03_encode_is_write_history.
+
+(** ... so every payload bit k is the value bit of the (unique) active signal covering position k
+    under the numbering of C01/C02 ([covers], [wbit]), and zero everywhere else *)
+Theorem C03_encode_bits : forall m st k,
+  wf_message m -> inv (msg_signals m) st = true -> 0 <= k < 64 ->
+  pbit (fr_data (frame_of m st)) k =
+  match find (fun w => covers w k) (active_writes m st) with
+  | Some w => wbit w k
+  | None => false
+  end.
+Proof. exact frame_bits. Qed.
+Print Assumptions C03_encode_bits.
+
+(** DECODE. A matching frame is accepted; every non-multiplexed field becomes the value read at its
+    signal's layout, a multiplexed field is replaced only when the (freshly decoded) multiplexer
+    field equals its selector, otherwise it is left unchanged *)
+Theorem C03_decode_plain : forall ss st d i s,
+  nth_error ss i = Some s -> (i < length st)%nat ->
+  nth i (unmarshal_plain ss st d) 0 = if s_multiplexed s then nth i st 0 else read_field s d.
+Proof. exact nth_unmarshal_plain. Qed.
+Print Assumptions C03_decode_plain.
+Theorem C03_decode_muxed : forall ss muxv st d i s,
+  nth_error ss i = Some s -> (i < length st)%nat ->
+  nth i (unmarshal_muxed ss st muxv d) 0 =
+  if s_multiplexed s && (muxv =? s_mux_value s) then read_field s d else nth i st 0.
+Proof. exact nth_unmarshal_muxed. Qed.
+Print Assumptions C03_decode_muxed.
+
+(** a decoded field is always inside its signal's representable range *)
+Theorem C03_decode_in_range : forall s d, wf_signal s -> valid_data d -> in_range s (read_field s d) = true.
+Proof. exact read_field_in_range. Qed.
+Print Assumptions C03_decode_in_range.
+
+(** decode after encode: a signal written by Frame() reads back (re-encodes) unchanged *)
+Theorem C03_read_back : forall ws s v,
+  wf_signal s -> in_range s v = true ->
+  ForallOrdPairs disjoint ws -> Forall write_ok ws -> In (write_of s v) ws ->
+  let d := fold_left apply_write ws zero_data in
+  write_of s (read_field s d) = write_of s v /\
+  (s_float s = false -> read_field s d = if s_length s =? 1 then (if v =? 0 then 0 else 1) else v).
+Proof. exact read_back_field. Qed.
+Print Assumptions C03_read_back.
+
+(** REJECT. a frame with another ID, another length, the remote flag or the other ID format is
+    rejected (no new state is produced: the message is unchanged) and every other frame is accepted *)
 Theorem C03_rejects : forall m f st,
   ~ (fr_id f = msg_id m /\ fr_length f = msg_length m /\ fr_remote f = false /\ fr_extended f = msg_extended m) ->
   exists r, unmarshal m f st = inl r.
 Proof. exact unmarshal_rejects. Qed.
 Print Assumptions C03_rejects.
-
 Theorem C03_accepts : forall m f st,
   fr_id f = msg_id m -> fr_length f = msg_length m -> fr_remote f = false -> fr_extended f = msg_extended m ->
   exists st', unmarshal m f st = inr st'.
 Proof. exact unmarshal_accepts. Qed.
 Print Assumptions C03_accepts.
 
-(** the database-level dispatcher returns a message registered for the frame's ID, or none exists *)
+(** DISPATCH. the database-level dispatcher returns a message registered for the frame's ID, or none exists *)
 Theorem C03_dispatch : forall db f,
   match dispatch db f with
   | Some (m, _) => In m (db_messages db) /\ msg_id m = fr_id f
@@ -35,3 +91,30 @@ Theorem C03_dispatch : forall db f,
   end.
 Proof. exact dispatch_spec. Qed.
 Print Assumptions C03_dispatch.
+
+(** non-vacuity: a multiplexed message with little-/big-endian, signed, 1-bit and float signals *)
+Definition C03_example_signal (name : Z) start len be sg fl mx md mv : signal :=
+  {| s_name := [name]; s_start := start; s_length := len; s_big_endian := be; s_signed := sg; s_float := fl;
+     s_multiplexer := mx; s_multiplexed := md; s_mux_value := mv; s_offset := 0; s_scale := 0; s_min := 0; s_max := 0;
+     s_unit := []; s_description := []; s_value_descriptions := []; s_receivers := []; s_default := 0 |}.
+Definition C03_example_message : message :=
+  {| msg_name := [77]; msg_id := 0x123; msg_extended := false; msg_length := 8; msg_send_type := SendNone;
+     msg_description := [];
+     msg_signals := [ C03_example_signal 1 0 4 false false false true false 0;     (* multiplexer, bits 0..3 *)
+                      C03_example_signal 2 4 1 false false false false false 0;    (* bool, bit 4 *)
+                      C03_example_signal 3 15 12 true true false false true 1;     (* m1: big-endian signed 12 bits *)
+                      C03_example_signal 4 8 16 false false false false true 2;    (* m2: overlaps m1, other selector *)
+                      C03_example_signal 5 32 32 false false true false false 0 ]; (* float32 *)
+     msg_sender := []; msg_cycle_time := 0; msg_delay_time := 0 |}.
+Example C03_nonvacuous :
+  wf_message C03_example_message /\
+  inv (msg_signals C03_example_message) [1; 1; -5; 0xBEEF; 0x40490FDB] = true /\
+  fr_data (frame_of C03_example_message [1; 1; -5; 0xBEEF; 0x40490FDB]) = [0x11; 0xFF; 0xB0; 0; 0xDB; 0x0F; 0x49; 0x40] /\
+  unmarshal C03_example_message (frame_of C03_example_message [1; 1; -5; 0xBEEF; 0x40490FDB]) [0; 0; 0; 7; 0]
+    = inr [1; 1; -5; 7; 0x40490FDB].
+Proof.
+  split; [|vm_compute; repeat split; congruence].
+  split.
+  - repeat constructor; vm_compute; intuition congruence.
+  - apply (fopb_sound compatb compat); [exact compatb_sound|vm_compute; reflexivity].
+Qed.
